@@ -116,6 +116,9 @@ type lifecycleChecker struct {
 
 func newLifecycleChecker(c *fw.Case) *lifecycleChecker {
 	p := sut.Proto()
+	// all five key types can sign: the configuration admits P-521 / ES512 next to the four shipped ones
+	p.KeyAlgorithms = append(p.KeyAlgorithms, "P-521")
+	p.SignatureAlgorithms = append(p.SignatureAlgorithms, "ES512")
 	return &lifecycleChecker{c: c, st: sut.SharedStack(p), ns: "did:sidetree", actual: &protocol.ResolutionModel{}, model: &oracle.State{}, time: 1000}
 }
 
@@ -268,7 +271,7 @@ func splitColon(s string) string {
 
 func c08Builders(c *fw.Case) {
 	r := c.Rng
-	kt := gen.SigningKeyTypes[c.Idx%len(gen.SigningKeyTypes)]
+	kt := gen.AllKeyTypes[c.Idx%len(gen.AllKeyTypes)]
 	code := uint(18 + r.Intn(2))
 	lc := newLifecycleChecker(c)
 	upd, err1 := newLibKey(r, kt)
